@@ -314,16 +314,20 @@ func zzvReload(n *FSNode) *FSNode {
 }
 
 func zzvCheckTypeBits(id string, typ pb.Data_DataType, got os.FileMode, wantPerm os.FileMode) {
-	var wantType os.FileMode
-	if wantPerm != 0 {
-		switch typ {
-		case pb.Data_Directory, pb.Data_HAMTShard:
-			wantType = os.ModeDir
-		case pb.Data_Symlink:
-			wantType = os.ModeSymlink
-		}
+	var typeBit os.FileMode
+	switch typ {
+	case pb.Data_Directory, pb.Data_HAMTShard:
+		typeBit = os.ModeDir
+	case pb.Data_Symlink:
+		typeBit = os.ModeSymlink
 	}
-	verifrt.Assert(id, got&^zzvPermMask == wantType)
+	if wantPerm != 0 {
+		verifrt.Assert(id, got&^zzvPermMask == typeBit)
+	} else {
+		// no permission bits stored: the property only fixes the permission bits; the derived type bit may or may
+		// not be reported, nothing else may
+		verifrt.Assert(id+"-permless", got&^(zzvPermMask|typeBit) == 0)
+	}
 }
 
 // HarnessC18Mode: SetMode / SetExtendedMode in either order (or a second SetMode replacing a first one), serialize,
